@@ -2,9 +2,14 @@
 --   raw x <label> <vcfg> <field> <hasher> <e> <main degs> <aux degs> <#main asserts> <#aux asserts>
 --         <aux width of the AIR> <lagrange 0|1> <hex>
 --     -> `<parse>[ <front>]` as computed by Model.Parse.parseProof / verifyFront
+--   refv <field> <hasher> <q.b.g.x.f.r> <seed> <AirDesc line> <acceptable> <public inputs> <label> <hex>
+--     -> verdict kind of the EXECUTABLE REFERENCE VERIFIER `Model.RefVerifier.refVerify` on the bytes
+--        (`ok` | `parse-err` | `err:<VerifierError kind>` | `panic`): the whole of `verify`, for the instantiations it
+--        covers (WinterProofs/C06.lean `verify_whole_safe_partial` is about this function)
 --   mut ...   -> `-` (exploration of the unmodelled rest of verify())
 import Winter.Drv.Util
 import Winter.Model.Parse
+import Winter.Model.RefVerifier
 
 namespace Drv.C06
 open Model Model.Serde Model.Parse
@@ -58,6 +63,8 @@ def handleRaw (t : List String) : String :=
 def handle (toks : List String) : String :=
   match toks with
   | "raw" :: rest => handleRaw rest
+  | ["refv", f, h, _opts, _seed, desc, acc, pubs, _tag, bytes] => RefVerifier.refvLine f h desc acc pubs (unhex bytes)
+  | "refv" :: _ => "bad-op"
   | _ => "-"
 
 end Drv.C06
